@@ -23,7 +23,13 @@ META = {
             "provider's CURRENT document, or was withdrawn less than one JWKS TTL ago, or the token string still has "
             "its entry in the JWT result cache. A second, end-to-end leg issues tokens with Ego's own authorization "
             "server, revokes them through POST /oauth2/revoke (RevokeHandler) and presents them to the resource server "
-            "configured by the real oauth.Initialize (HTTP discovery + JWKS).",
+            "configured by the real oauth.Initialize (HTTP discovery + JWKS). Both legs inject WRITE FAILURES of the "
+            "credentials database into the revocation lookup while its reads keep working (every UPDATE of the "
+            "blacklist table refused by a trigger, the store opened read-only with sqlite mode=ro, the SQLite write "
+            "lock held by a second connection past the busy timeout) at the moment a revoked jti is looked up with "
+            "a cold BlacklistCache, for every JWT-side caller (ValidateJWT result-cache-hit path and step 5b, "
+            "authserver UserinfoHandler): the model has no such operation - a revoked jti is rejected whatever the "
+            "'last used' audit UPDATE of tokens.IsIDBlacklisted returns - and the oracle is unchanged.",
     "note": "The model mirrors the code WITH fixes/C22.patch (blacklist check on the cache-miss path); the code before the "
             "patch is the `fixed := false` variant and C22_unpatched_counterexample shows it accepts a token revoked "
             "before first presentation. KNOWN FINDING (class accept-withdrawn-key-token-without-kid): for a token WITHOUT "
@@ -38,7 +44,9 @@ META = {
             "document without usable keys); the cache size limit and sweeper are over-approximated by an `evict` "
             "operation that may drop any entry at any time (the harness reports the real evictions through "
             "caches.SetOnEvict). Assumed: a blacklist store is configured and its reads succeed (ValidateJWT fails open "
-            "on a blacklist read error); tokens without a jti cannot be revoked (by design of the code). Permission "
+            "on a blacklist read error; WRITE errors of the store are not assumed away: the harness injects them); a "
+            "server with a read-only store is emulated by writing the rows through a second connection and dropping "
+            "this instance's lookup caches the way tokens.Blacklist/Delete/Flush drop them; tokens without a jti cannot be revoked (by design of the code). Permission "
             "mapping is not part of C22.",
     "technique": "Lean 4 proof (invariant over all histories) + model/implementation correspondence under synctest",
     "design_ref": "DESIGN.md §6 C22",
@@ -78,6 +86,11 @@ def run(ctx):
     rst = (ctx.read_jsonl("c22_revoke_stats.json") or [{}])[0].get("counters", {})
     if rc == 0 and rst.get("rounds.revoked", 0) == 0:
         ctx.broken.append("end-to-end leg is vacuous: no revocation succeeded")
+    if rc == 0:
+        for k in ("trigger", "readonly", "lock", "first-caller-UserinfoHandler", "first-caller-ValidateJWT"):
+            if rst.get("rounds.revoked.write-fault." + k, 0) == 0:
+                ctx.broken.append("end-to-end leg is vacuous: no revoked token was presented under the write fault / "
+                                  "caller order '%s'" % k)
     st = (ctx.read_jsonl("c22_stats.json") or [{}])[0]
     c = st.get("counters", {})
     if cases and c.get("present.accepted", 0) == 0:
@@ -88,6 +101,10 @@ def run(ctx):
                           "(changes=%d, accepted after a change=%d, accepted on a withdrawn key inside the TTL allowance=%d)"
                           % (c.get("op.keys", 0), c.get("present.accepted-after-document-change", 0),
                              c.get("present.accepted-withdrawn-key-within-allowance", 0)))
+    if cases:
+        for k in ("trigger", "readonly", "lock", "result-cache-hit-path", "step-5b-path"):
+            if c.get("present.revoked-cold-lookup-under-write-fault." + k, 0) == 0:
+                ctx.broken.append("harness is vacuous: no cold lookup of a revoked jti under a failing audit write (%s)" % k)
     ctx.coverage.update({
         "evaluations": c.get("op.present", 0),
         "histories": c.get("histories", 0),
@@ -95,10 +112,12 @@ def run(ctx):
         "rule": "histories of present/revoke/unrevoke/flush/advance/purge/JWKS-document-change over 3-8 hand-assembled "
                 "tokens and random JWKS layouts (duplicate kids, enc-only, oct, bad curve, off-curve, bad base64; two "
                 "histories in five replace the document one to three times: withdraw, publish, rotate under the same kid, "
-                "reorder, earlier document, no usable key); a presentation is non-trivial when at most one acceptance "
+                "reorder, earlier document, no usable key; one history in four has stretches in which every UPDATE of the "
+                "blacklist table fails, one in sixteen runs on a read-only revocation store, corpus histories hold the "
+                "SQLite write lock during the lookup); a presentation is non-trivial when at most one acceptance "
                 "condition fails; distinct = distinct (failing condition, alg family, kid present, kid selects signer, "
                 "seen before, exp boundary, nbf, audience configured, user claim, key current / withdrawn < ttl / "
-                "withdrawn >= ttl / never published, document changed) vectors",
+                "withdrawn >= ttl / never published, document changed, audit-write fault in force) vectors",
         "samples": st.get("samples", []),
         "counters": c,
         "e2e_counters": rst,
